@@ -424,7 +424,7 @@ class MixedPullback(AbstractPullback):
                     subelem.reference_value_shape
                 )
             )
-            subdomain = domain[i] if isinstance(domain, MeshSequence) else None
+            subdomain = domain[i] if isinstance(domain, MeshSequence) else domain
             rmapped = subelem.pullback.apply(rsub, domain=subdomain)
             # Flatten into the pulled back expression for the whole thing
             g_components.extend(rmapped[idx] for idx in np.ndindex(rmapped.ufl_shape))
@@ -514,7 +514,7 @@ class SymmetricPullback(AbstractPullback):
                     subelem.reference_value_shape
                 )
             )
-            subdomain = domain[i] if isinstance(domain, MeshSequence) else None
+            subdomain = domain[i] if isinstance(domain, MeshSequence) else domain
             rmapped = subelem.pullback.apply(rsub, domain=subdomain)
             # Flatten into the pulled back expression for the whole thing
             g_components.extend(rmapped[idx] for idx in np.ndindex(rmapped.ufl_shape))
